@@ -128,7 +128,7 @@ def run(ctx):
     n = 150 if ctx.tier == 'quick' else 4000
     worlds = []
     for i in range(n):
-        spec = make_spec(g, ('shadow',) if g.r.random() < 0.06 else (('big',) if g.r.random() < 0.12 else ()))
+        spec = make_spec(g, ('shadow',) if g.r.random() < 0.06 else (('big',) if g.r.random() < 0.05 else ()))
         # give every call an identity that survives structural shrinking
         ch = {}
         for ei, (name, calls) in enumerate(spec['execs']):
